@@ -360,6 +360,9 @@ func (b *Blinder) blind(
 		if err := args.validate(b.Pset); err != nil {
 			return fmt.Errorf("invalid input issuance blinding args %d: %s", i, err)
 		}
+		if isFinalized(b.Pset, int(args.Index)) {
+			return fmt.Errorf("invalid input issuance blinding args %d: %s", i, ErrInputAlreadyFinalized)
+		}
 	}
 
 	// Make sure blinding args are ordered by index before validating.
